@@ -9,8 +9,16 @@ from . import vals as V
 from .engine import SV, Exc, Raise, Unsupported, State, BoundMethod
 
 
+LOOP_REGION = 1_000_000  # addresses of objects created by earlier iterations of an allocating loop
+
+
 class LoopSpec:
-    def __init__(self, invariant=None, frame=None, decreases=None, lists=True, note="", ghost=(), single_iteration=None, sets=False):
+    def __init__(self, invariant=None, frame=None, decreases=None, lists=True, note="", ghost=(), single_iteration=None, sets=False, allocates=False):
+        # allocates: the body creates objects.  Objects created by earlier iterations then live in an address region of
+        # their own (>= LOOP_REGION), apart from everything that existed when the loop was entered (addresses <= 0 or
+        # small positive locals); fields outside `frame` may be written on such new objects only: at loop head every
+        # field array agrees with the entry state on all older addresses, and each iteration must preserve that.
+        self.allocates = allocates
         self.sets = sets  # the loop may change the content of Python set objects
         self.ghost = tuple(ghost)  # ghost variables (z3 terms in st.ghost) the loop may change
         self.single_iteration = single_iteration  # text: obligation that the back edge is unreachable
@@ -154,12 +162,25 @@ def _havoc(eng, spec, body_nodes, st: State, fr: int, extra_names=()):
             cur = f.vars.get(n)
             hint = cur.hint if isinstance(cur, SV) else None
             v = V.fresh_val(f"loop_{n}")
-            st.assume(eng.external_ref_fact(st, v))
+            if spec.allocates:
+                st.assume(z3.Implies(V.is_ref(v), z3.Or(V.Val.a(v) <= 0, V.Val.a(v) >= LOOP_REGION, *[V.Val.a(v) == k_ for k_ in sorted(st.escaped)])))
+            else:
+                st.assume(eng.external_ref_fact(st, v))
             f.vars[n] = SV(v, hint=hint)
     frame = set(spec.frame) if spec.frame is not None else stored_fields(body_nodes)
     eng.havoc_heap(st, [f for f in frame])
     for f in frame:
         st.field_array(f)
+    if spec.allocates:
+        mark = len(st.local_objs)
+        k = z3.Int(V.fresh_name("k"))
+        for f in list(st.heap.keys()):
+            if f in frame:
+                continue
+            old = st.heap[f]
+            new = z3.Const(V.fresh_name(f"H.{f}"), old.sort())
+            st.assume(z3.ForAll([k], z3.Implies(k <= mark, z3.Select(new, k) == z3.Select(old, k)), patterns=[z3.Select(new, k)]))
+            st.heap[f] = new
     if spec.lists:
         st.lists = z3.Const(V.fresh_name("lists"), st.lists.sort())
     if spec.sets:
@@ -173,7 +194,7 @@ def _havoc(eng, spec, body_nodes, st: State, fr: int, extra_names=()):
     return frame
 
 
-def _frame_obligations(eng, st_end: State, head: State, frame, line, lists_free, sets_free=False):
+def _frame_obligations(eng, st_end: State, head: State, frame, line, lists_free, sets_free=False, allocates=False):
     for f, arr in st_end.heap.items():
         if f in frame:
             continue
@@ -181,7 +202,12 @@ def _frame_obligations(eng, st_end: State, head: State, frame, line, lists_free,
         if base is None:
             base = z3.Const(f"H0.{f}", arr.sort())
         if not z3.eq(arr, base):
-            eng.oblige(st_end, f"loop@{line} frame: field {f} unchanged by an iteration", arr == base, "loop-frame", line)
+            if allocates:
+                k = z3.Int(V.fresh_name("older_addr"))
+                eng.oblige(st_end, f"loop@{line} frame: field {f} of every object older than this iteration is unchanged by it",
+                           z3.Implies(k <= len(head.local_objs), z3.Select(arr, k) == z3.Select(base, k)), "loop-frame", line)
+            else:
+                eng.oblige(st_end, f"loop@{line} frame: field {f} unchanged by an iteration", arr == base, "loop-frame", line)
     if not lists_free and not z3.eq(st_end.lists, head.lists):
         eng.oblige(st_end, f"loop@{line} frame: list contents unchanged", st_end.lists == head.lists, "loop-frame", line)
     if not sets_free and not z3.eq(st_end.sets, head.sets):
@@ -218,7 +244,7 @@ def exec_while(eng, node, st: State, fr: int):
                     if spec.single_iteration:
                         eng.oblige(st3, f"loop@{line}: {spec.single_iteration}", z3.BoolVal(False), "loop-termination", line)
                     _inv_obligations(eng, spec, ctx, st3, "preserved", line)
-                    _frame_obligations(eng, st3, head, frame, line, spec.lists, spec.sets)
+                    _frame_obligations(eng, st3, head, frame, line, spec.lists, spec.sets, spec.allocates)
                     if dec0 is not None:
                         d1 = spec.decreases(ctx)
                         eng.oblige(st3, f"loop@{line} variant decreases and is bounded", z3.And(d1 < dec0, dec0 >= 0), "loop-variant", line)
@@ -385,7 +411,7 @@ def _for_invariant(eng, node, sym: SymIter, spec: LoopSpec, st: State, fr: int):
                 if ex is None or ex[0] == "continue":
                     ctx = LoopCtx(eng, st4, fr, entry=entry_ctx, index=i + 1, seq=sym.seq, it=sym)
                     _inv_obligations(eng, spec, ctx, st4, "preserved", line)
-                    _frame_obligations(eng, st4, head, frame, line, spec.lists, spec.sets)
+                    _frame_obligations(eng, st4, head, frame, line, spec.lists, spec.sets, spec.allocates)
                 elif ex[0] == "break":
                     yield st4, None
                 else:
